@@ -1,12 +1,13 @@
 import UralModel.Lemmas.Quote
 import UralModel.Lemmas.QuoteIdem
 import UralModel.Lemmas.QuoteUpper
+import UralModel.Lemmas.QuoteControl
 import UralModel.Gen.QuoteTables
 /-!
 # C14 — Safe quoting/unquoting preserves decoded content and delimiters
 -/
 namespace Ural.Props.C14
-open Ural Ural.Py Ural.Quote Ural.QuoteUpper
+open Ural Ural.Py Ural.Quote Ural.QuoteUpper Ural.QuoteControl
 
 /-! ## table obligations: re-checked by `decide` whenever the tables are regenerated -/
 
@@ -491,6 +492,50 @@ theorem unquote_delimiters_table (U : List UInt8) (hU : (0x25 : UInt8) ∈ U) (h
   rw [hn] at this
   exact hsp (UInt8.toNat_inj.1 (by simpa using this))
 
+/-- "introduces no control character", counting form: a control character occurs in the
+output at most as often as in the input (exactly as often for C0 controls and DEL — their
+escapes are kept —, never for C1 controls) -/
+theorem unquote_control_count (U : List UInt8) (hU : (0x25 : UInt8) ∈ U) (s : Str) (ch : Char)
+    (hc : isControl ch) : (safelyUnquote U s).count ch ≤ s.count ch := by
+  have hp : ch ≠ '%' := by
+    rintro rfl
+    have e : ('%' : Char).toNat = 37 := rfl
+    unfold isControl at hc; omega
+  have hx : isHexDigit ch = false := by
+    cases h : isHexDigit ch with
+    | false => rfl
+    | true => have := (isHexDigit_iff ch).1 h; unfold isControl at hc; omega
+  obtain ⟨et, _, hraw⟩ := unquote_tokens U hU s
+  rw [count_str ch hp hx (safelyUnquote U s), count_str ch hp hx s, et]
+  by_cases hlow : ch.toNat < 0x20 ∨ ch.toNat = 0x7f
+  · have hd : ch.toNat < 0x80 := by omega
+    have hsp : ch ≠ ' ' := by
+      rintro rfl
+      have e : (' ' : Char).toNat = 32 := rfl
+      omega
+    have hk : keepEsc U (UInt8.ofNat ch.toNat) = true := by
+      have hb : (UInt8.ofNat ch.toNat).toNat = ch.toNat := by simp; omega
+      simp only [keepEsc, Bool.or_eq_true, decide_eq_true_eq, beq_iff_eq]
+      rcases hlow with h | h
+      · left; left
+        rw [UInt8.lt_iff_toNat_lt, hb]; exact h
+      · left; right
+        apply UInt8.toNat_inj.1
+        rw [hb, h]; rfl
+    rw [count_unquoteToks_keep U ch hd hsp hk, count_escapeRaw ch hd]
+    exact Nat.le_refl _
+  · have h0 : (unquoteToks U (escapeRaw (tokens s))).count (.raw ch) = 0 := by
+      rw [List.count_eq_zero]
+      intro hm
+      have := hraw ch hm
+      have hc1 : isC1 ch = true := by
+        unfold isControl at hc
+        simp only [isC1, Bool.and_eq_true, decide_eq_true_eq]
+        omega
+      simp [staysEscaped, hc1] at this
+    rw [h0]
+    exact Nat.zero_le _
+
 /-- **unquote then quote** (what `canonicalize_url(quoted=True)` applies to a component): the
 scan of `safely_unquote_*(safely_quote(safely_unquote_*(s)))` is the scan of
 `safely_unquote_*(s)` with its raw delimiters and control characters spelled as escapes -/
@@ -535,7 +580,7 @@ space has the same raw occurrences in the output as in the input -/
 theorem api_unquote_contract (U : List UInt8) (h : U ∈ apiTables) (s : Str) :
     pctStr (safelyUnquote U s) = pctStr s ∧
     ' ' ∉ safelyUnquote U s ∧
-    (∀ ch ∈ safelyUnquote U s, isControl ch → ch ∈ s) ∧
+    (∀ ch, isControl ch → (safelyUnquote U s).count ch ≤ s.count ch) ∧
     Tok.stray ∉ tokens (safelyUnquote U s) ∧
     safelyUnquote U (safelyUnquote U s) = safelyUnquote U s ∧
     safelyQuote (safelyUnquote U (safelyQuote (safelyUnquote U s))) = safelyQuote (safelyUnquote U s) ∧
@@ -543,7 +588,7 @@ theorem api_unquote_contract (U : List UInt8) (h : U ∈ apiTables) (s : Str) :
     (∀ b ∈ U, b ≠ 0x20 → (tokens (safelyUnquote U s)).count (.raw (Char.ofNat b.toNat)) =
       (tokens s).count (.raw (Char.ofNat b.toNat))) := by
   obtain ⟨hU, hA⟩ := api_tables_ok U h
-  exact ⟨unquote_pct U hU s, unquote_no_space U s, unquote_no_new_control U s,
+  exact ⟨unquote_pct U hU s, unquote_no_space U s, unquote_control_count U hU s,
     unquote_no_stray U hU s, unquote_idempotent U hU hA s, quote_unquote_idempotent U hU hA s,
     upper_commutes_unquote U hU s, fun b hb hsp => unquote_delimiters_table U hU hA b hb hsp s⟩
 
